@@ -77,3 +77,33 @@ Theorem same_content_same_hash img1 img2 :
 Proof.
   intros Hh Hw Hp. unfold surface_hash. rewrite Hh, Hw. f_equal. apply flat_rgba_inj, Hp.
 Qed.
+
+(* ---------- histories in which the hash argument is the content hash ---------- *)
+From SNT Require Import Image.KittySpec Image.KittyHistory.
+
+Inductive uop :=
+| UDraw (img : image) (pos : N * N)
+| UErase (img : image) (pos : option (N * N))
+| UEvent (ev : event).
+
+Definition with_hash (u : uop) : op :=
+  match u with
+  | UDraw img pos => OpDraw img (surface_hash img) pos
+  | UErase img pos => OpErase img (surface_hash img) pos
+  | UEvent ev => OpEvent ev
+  end.
+
+Definition uop_wf (u : uop) : Prop :=
+  match u with UDraw img _ | UErase img _ => image_wf img | UEvent _ => True end.
+
+Theorem history_ok_hashed (quiet : bool) (uops : list (uop * bool)) : Forall (fun ul => uop_wf (fst ul)) uops ->
+  let ops := map (fun ul => (with_hash (fst ul), snd ul)) uops in
+  let trace := lockstep (kitty_new quiet) store0 ops in
+  Forall (fun s' => t_errs s' = [] /\ t_pending s' = None /\ places_valid s') trace /\
+  once_scan [] (combine (map (fun ol => err_of (fst ol)) ops) (map sent_ids trace)) = true.
+Proof.
+  intros H. apply (history_ok false _ (kitty_new quiet) store0 (inv_init false quiet)).
+  apply Forall_forall. intros o Ho. apply in_map_iff in Ho as (u & <- & Hu).
+  rewrite Forall_forall in H. specialize (H u Hu). cbn [fst snd]. split; [|discriminate].
+  destruct (fst u); exact H.
+Qed.
